@@ -127,9 +127,9 @@ func selectFor(prop string, info *propertyInfo, db *SpecDB, fns map[string]*ssa.
 		sort.Strings(s.keys)
 		return s
 	}
-	if len(roots) == 0 || prop == "C18" {
-		// a property about the whole API surface of its anchor files: every contract declared for a function of
-		// those files is checked (C18, C20)
+	{
+		// every contract declared for a function of the anchor files is checked, whatever its property tags: a
+		// change in an anchored file must be noticed by the property's check
 		for k, f := range fns {
 			if c, ok := db.Contracts[k]; ok && !c.Inline && c.Trusted == "" && anchor[fileOf(f)] {
 				roots[k] = true
